@@ -37,7 +37,7 @@ CLAIMS = {
     'C03': dict(
         text="Proof against an abstract receive environment, which is proved to cover the uncached chip-model interpreter for operations "
              "without events inside them (rx_covers, env_rxByte, env_rxEnd, C03_step_on_chip: flag semantics, FIFO reads including the clearing of "
-             "PayloadReady, flush, configuration registers; the cached build by C02); arrivals INSIDE a running handler are covered by the "
+             "PayloadReady, flush, configuration registers), and from there the cached build from any coherent state (C03_step_on_chip_cached = C03_step_on_chip + the one-step simulation of C02 + C01); arrivals INSIDE a running handler are covered by the "
              "environment but tied to the chip model by the scripts only. The environment rxE (Sx/Lemmas/RxFifo.lean) is a 64-byte FIFO into which "
              "the demodulator may push any number of the frame's next bytes before EVERY SPI transfer (hence also between the transfers of a "
              "running handler) as long as the FIFO does not fill up (the property's hypothesis), PayloadReady raised at any moment after the "
@@ -75,14 +75,14 @@ CLAIMS = {
         technique="Lean 4 weakest-precondition calculus over an abstract environment (all schedules, all answers) + refinement of the chip-model interpreter to that environment + TX schedules on the real driver",
         design="7 C04"),
     'C05': dict(
-        text="Proof for explicit and implicit header; correspondence for flag combinations with CadDone. Theorems Sx.C05_rx_done, "
+        text="Proof for explicit and implicit header, every packet-buffer size. Theorems Sx.C05_rx_done, "
              "C05_rx_done_implicit (configured length, any 16-bit value: the low byte is used and RegRxNbBytes is not read), C05_crc_error "
              "(plain execution) and C05_cached / C05_cached_implicit (cached build after any admissible history): whenever RegIrqFlags holds RxDone without CadDone and PayloadCrcError "
-             "(any other flags), for every RxNbBytes 0..255, every FifoRxCurrentAddr (wrap-around at 256 proved by induction on the burst), "
+             "(any other flags), for every RxNbBytes 0..255 that fits the packet buffer (any CONFIG_SX127X_MAX_PACKET_SIZE; C05_rx_too_long: a longer packet is neither read nor delivered and leaves the handle exactly as it was), every FifoRxCurrentAddr (wrap-around at 256 proved by induction on the burst), "
              "every buffer content, FIFO pointer and other handle fields, one handler invocation invokes exactly one callback, the receive "
              "callback with exactly the chip's bytes and length, acknowledges exactly the flags read and resets the per-packet state "
-             "(so the outcome does not depend on the packets before); a packet with PayloadCrcError yields no callback. Flag "
-             "combinations with CadDone are covered by the trace correspondence and the delivery monitor only.",
+             "(so the outcome does not depend on the packets before); a packet with PayloadCrcError yields no callback. CadDone, which the chip "
+             "raises in CAD mode only, takes precedence in the handler (C07_cad_done, any other flags); such flag bytes are additionally covered by the trace correspondence.",
         technique="Lean 4 weakest-precondition proof of the LoRa handler (both header modes) + induction on the FIFO burst + scheduler scripts",
         design="7 C05"),
     'C06': dict(
